@@ -140,10 +140,20 @@ class RankSelection(SelectionFunction[T]):
         """
         random_value = randomness.next_float()
         bias = self.bias
-        return int(
-            len(population)
-            * ((bias - sqrt(bias**2 - (4.0 * (bias - 1.0) * random_value))) / 2.0 / (bias - 1.0))
-        )
+        if bias == 1.0:
+            # The formula below degenerates to 0/0; a bias of 1.0 is uniform random selection.
+            index = int(len(population) * random_value)
+        else:
+            index = int(
+                len(population)
+                * (
+                    (bias - sqrt(bias**2 - (4.0 * (bias - 1.0) * random_value)))
+                    / 2.0
+                    / (bias - 1.0)
+                )
+            )
+        # Rounding can yield len(population) for random values adjacent to 1.0.
+        return min(index, len(population) - 1)
 
 
 class TournamentSelection(SelectionFunction[T]):
